@@ -146,10 +146,18 @@ def split(s, sep):
     return s.split(sep)
 
 
+class _Undefined:
+    """out-of-range element in the CPython reading: equal to nothing (the proof reading leaves seq.nth unspecified there,
+    and clauses only use it under a length guard; the eager python And/Or must not raise before the guard is looked at)"""
+    def __eq__(self, other): return False
+    def __ne__(self, other): return True
+    def __hash__(self): return 0
+
+
 def nth(seq, i):
     if sym(seq, i):
         return seq[i]
-    return seq[i]
+    return seq[i] if 0 <= i < len(seq) else _Undefined()
 
 
 class Fold:
@@ -234,6 +242,47 @@ def isnone(x):
     if isinstance(x, UnionView):
         return x.is_none
     return z3.BoolVal(False)
+
+
+def _is_opt_term(x):
+    return isinstance(x, z3.ExprRef) and isinstance(x.sort(), z3.DatatypeSortRef) and x.sort().name().startswith('Opt')
+
+
+def opt_none(x):
+    """`x is None` for an optional field: datatype term (proof), UnionView / python None (views), python value (replay)"""
+    if _is_opt_term(x):
+        return x.sort().recognizer(0)(x)
+    if x is None:
+        return True
+    from .contract import UnionView
+    if isinstance(x, UnionView):
+        return x.is_none
+    return False
+
+
+def opt_val(x):
+    """the value of an optional that is not None"""
+    if _is_opt_term(x):
+        return x.sort().accessor(1, 0)(x)
+    from .contract import UnionView
+    if isinstance(x, UnionView):
+        return x.val
+    return x
+
+
+def seq_of(*xs):
+    """a sequence literal: z3 Seq(String) term / python list"""
+    return list(xs)
+
+
+def seq_is(s, xs):
+    """sequence s holds exactly the strings xs in this order"""
+    if isinstance(s, z3.ExprRef):
+        t = z3.Empty(s.sort())
+        for x in xs:
+            t = z3.Concat(t, z3.Unit(z3.StringVal(x)))
+        return s == t
+    return list(s) == list(xs)
 
 
 def ubox(x):
